@@ -165,6 +165,14 @@ func (e *Engine) verifyFunc(key string) (x *Exec, err error) {
 	if fc == nil {
 		return nil, fmt.Errorf("no contract for %s", key)
 	}
+	if k := strings.Index(key, "@"); k > 0 && fi == nil && !fc.Assume {
+		// a VERIFIED variant K@model: the body of K against a second
+		// contract, in another arithmetic model
+		fi = e.funcs[key[:k]]
+		if fi == nil {
+			return nil, fmt.Errorf("contract anchor missing: no function %s in the tree", key[:k])
+		}
+	}
 	var captured []*types.Var
 	var selfVar *types.Var
 	if k := strings.Index(key, "#lit"); k >= 0 && fi == nil {
